@@ -171,7 +171,7 @@ def _stratum(name):
         a, b = ("lit", "a"), ("lit", "b")    # bodies that hold submatches, alone and followed by a further submatch (numbering!)
         bodies = list(A) + [("$", a), ("$", ("or", a, b)), ("seq", ("$", a), b), ("->", "n", a), ("$", ("*", a)), ("?", ("$", a))]
         reps = [lambda x, m=m, n=n: ("**", m, n, x) for m, n in ((0, 1), (0, 2), (0, 3), (1, 3), (2, 3), (2, 4), (2, 2), (0, 0))] + \
-               [lambda x, k=k: ("=", k, x) for k in (0, 1, 3)]
+               [lambda x, k=k: ("=", k, x) for k in (0, 1, 3)] + [lambda x, k=k: (">=", k, x) for k in (0, 1, 2, 3)]
         out = []
         for x in bodies:
             for r in reps:
@@ -585,7 +585,7 @@ def main(tier):
     chk.rule = ("SRE strata, each enumerated completely: A = the 8 leaves \"a\" \"b\" any (/ \"ab\") (~ \"a\") \"\" bol eol; D1 = every unary "
                 "operator * + ? (= 2 x) (** 1 2 x) ($ x) (-> n x) (w/nocase x) over A and every binary operator (: x y) (or x y) "
                 "over AxA; D2u = unary(D1); D2m = binary(D1,A) u binary(A,D1); D2f = binary(D1,D1) [A+D1+D2u+D2m+D2f = all SREs "
-                "of depth <= 2]; D3u = u1(u2(D1)), u1,u2 any unary operator but (-> n x) (the depth-3 cap: operator chains over a depth-1 core); R = (** m n x) for 8 bound pairs and (= k x) for k in 0,1,3 over the leaves and 6 bodies holding submatches, alone and next to a further submatch; F = w/case and w/nocase alone, nested both ways and around submatches over 9 cores; X = depth<=2 terms "
+                "of depth <= 2]; D3u = u1(u2(D1)), u1,u2 any unary operator but (-> n x) (the depth-3 cap: operator chains over a depth-1 core); R = (** m n x) for 8 bound pairs and (= k x) for k in 0,1,3 and (>= k x) for k in 0..3 over the leaves and 6 bodies holding submatches, alone and next to a further submatch; F = w/case and w/nocase alone, nested both ways and around submatches over 9 cores; X = depth<=2 terms "
                 "mentioning e-acute / E-acute; NC = 4 slow-to-compile (w/nocase (or ..class..)) terms.  Subject sets, each "
                 "complete: S4 = all 121 strings of length <= 4 over {a,b,newline}; S5 / S56 = all of length 5 / 5..6; "
                 "S4X = S4 + 15 fixed strings with A, B, e-acute, E-acute; S2X, X = length <= 2 + the 15.  quick = "
